@@ -150,9 +150,14 @@ impl Property for P09 {
         "C09"
     }
     fn len(&self) -> u64 {
-        2 * self.half
+        // third pass: both operands are the same object (`a OP a`)
+        2 * self.half + BINOPS.len() as u64 * self.vals.len() as u64
     }
     fn describe(&self, idx: u64) -> Value {
+        if idx >= 2 * self.half {
+            let v = unrank(idx - 2 * self.half, &[self.vals.len() as u64, BINOPS.len() as u64]);
+            return json!({"expr": format!("a {} a", BINOPS[v[1] as usize]), "a (one object on both sides)": self.vals[v[0] as usize].to_src()});
+        }
         let (op, a, b, bin, lit) = self.case2(idx);
         let mode = if lit { "operands written as source text" } else { "operands injected as objects" };
         if bin {
@@ -162,6 +167,19 @@ impl Property for P09 {
         }
     }
     fn run(&self, idx: u64) -> CaseOut {
+        if idx >= 2 * self.half {
+            let v = unrank(idx - 2 * self.half, &[self.vals.len() as u64, BINOPS.len() as u64]);
+            let (a, op) = (&self.vals[v[0] as usize], BINOPS[v[1] as usize]);
+            let want = binop(op, a, a);
+            if let R::Unspecified(w) = &want {
+                if w.contains("memory exclusion") {
+                    return CaseOut::skip(format!("same {} {} -> not-run", a.kind(), op), "requests more memory than the exclusion allows");
+                }
+            }
+            let got = eval_with_operands(&format!("a {} a", op), a, a);
+            let (cls, verdict) = judge("C09", &format!("a {} a with a = {} (one object)", op, a.to_src()), &got, &want);
+            return CaseOut { class: format!("same-object {} {} -> {}", a.kind(), op, cls), verdict, states: 1, transitions: 1, traces: 1 };
+        }
         let (op, a, b, bin, lit) = self.case2(idx);
         let (expr, want, what) = if bin {
             (format!("a {} b", op), binop(&op, a, b), format!("{} {} {}", a.to_src(), op, b.to_src()))
@@ -181,7 +199,21 @@ impl Property for P09 {
         } else {
             eval_with_operands(&expr, a, b)
         };
-        let (cls, verdict) = judge("C09", &what, &got, &want);
+        let (mut cls, mut verdict) = judge("C09", &what, &got, &want);
+        if let (R::Unspecified(w), true) = (&want, bin) {
+            if w.contains("ordering between a byte") {
+                // the statement names no such combination: a runtime error, or else the numerically right answer
+                let num = |v: &V| match v { V::Byte(x) => *x as f64, V::Int(x) => *x as f64, V::Float(x) => *x, _ => f64::NAN };
+                let (x, y) = (num(a), num(b));
+                let right = match op.as_str() { "<" => x < y, ">" => x > y, "<=" => x <= y, _ => x >= y };
+                match &got {
+                    Ok(Outcome::RtErr(..)) => { cls = "error".into(); verdict = Verdict::Pass; }
+                    Ok(Outcome::Value(g)) if *g == format!("{}", right) => { cls = "value".into(); verdict = Verdict::Pass; }
+                    Ok(Outcome::Value(g)) => { cls = "wrong-value".into(); verdict = Verdict::Violation(format!("{}: got {}; neither a runtime error nor the numeric answer {}", what, g, right)); }
+                    _ => {}
+                }
+            }
+        }
         let m = if lit { "lit " } else { "" };
         let class = if bin {
             format!("{}{} {} {} -> {}", m, a.kind(), op, b.kind(), cls)
@@ -195,7 +227,7 @@ impl Property for P09 {
             "every binary operator in {:?} applied to every ordered pair, and every unary operator in {:?} applied to \
              every element, of {} boundary operand values (13 ints incl. MIN/MAX/63/64/65/2^53, 9 floats incl. +-0, +-inf, \
              NaN, 5 bytes, bools, null, 4 strings, 3 chars, 3 arrays, 2 maps, a closure, a builtin); operands are \
-             injected as real objects and, in a second pass, written as source literals; the result is compared with a transcription of the C09 statement; class = \
+             injected as real objects and, in a second pass, written as source literals; in a third pass every binary operator is applied to one object on both sides (`a OP a`); the result is compared with a transcription of the C09 statement; class = \
              (left kind, operator, right kind, outcome class)",
             BINOPS,
             UNOPS,
